@@ -164,12 +164,10 @@ fn iso_from(e: &Euler, t: &P3) -> Iso3 {
 
 /// tolerance for rotation-matrix comparisons: the documented gimbal band loses precision
 fn band(pitch: f64) -> (f64, bool) {
+    // (the decomposition used to snap the middle angle inside a band around gimbal lock and the tolerance was 2e-4
+    // there; it is exact at every pose now and so is the tolerance — the flag only labels the cases)
     let c = pitch.cos().abs();
-    if c < 2e-4 {
-        (2e-4, true)
-    } else {
-        (1e-9 / c.max(1e-3), false)
-    }
+    (1e-9, c < 2e-4)
 }
 
 fn rot_diff(a: &UnitQuaternion<f64>, b: &UnitQuaternion<f64>) -> f64 {
